@@ -164,6 +164,16 @@ func (w *concWorld) drive(tag string, s Sess, ctx context.Context, holder bool) 
 		}
 	case "StartMalformed":
 		deliverStart([]byte("\x00 not a start message"))
+		// (an implementation may go on waiting for a well-formed start message instead of giving the
+		// session up: then the caller gives up - either way Run is never called)
+		select {
+		case e := <-done:
+			done <- e
+		case <-time.After(time.Second):
+			if cf, ok := ctx.Value(cancelKey{}).(context.CancelFunc); ok {
+				cf()
+			}
+		}
 	case "ParamsRejected":
 		deliverStart(startMsg(badParams(s.Kind)))
 	case "RanFailed":
